@@ -1,6 +1,6 @@
 SPECIFICATION Spec
 CONSTANTS
-  Families = {"all1", "all2", "bin3", "perm3", "perm4", "tri3", "tri4", "ptri3", "ptri4"}
+  Families = {"all1", "all2", "bin3", "perm3", "tri3", "ptri3"}
   Pivoting = TRUE
   Mod = 1
   Res = 0
